@@ -9,7 +9,7 @@
 From Coq Require Import List ZArith.
 Import ListNotations.
 Require Import V.base.Fld V.base.ZpField V.model.LinAlg V.model.Poly V.model.Interp.
-Require Import V.proofs.LinAlg_proofs V.proofs.Poly_proofs V.proofs.Interp_proofs V.proofs.Birkhoff_proofs.
+Require Import V.proofs.LinAlg_proofs V.proofs.Poly_proofs V.proofs.Interp_proofs V.proofs.Birkhoff_proofs V.proofs.Det_proofs V.proofs.DetCol_proofs.
 
 (* ---- linear solving -------------------------------------------------------------------- *)
 
@@ -217,25 +217,93 @@ Theorem C20_vandermonde_total : forall (F : Type) (K : fops F), flaws K ->
 Proof. exact @vandermonde_total. Qed.
 Print Assumptions C20_vandermonde_total.
 
+(* (g) det_value: the elimination-coded Determinant equals the Laplace (first-column cofactor
+   expansion) determinant [ldet], for every square matrix *)
+Theorem C20_det_value : forall (F : Type) (K : fops F), flaws K ->
+  forall n (M : @matrix F), wf_matrix n n M -> determinant K M = ldet K n M.
+Proof. exact @det_value. Qed.
+Print Assumptions C20_det_value.
+
+(* multiplicativity (invertible left factor) and Cramer's rule as the code applies it
+   (SetColumn + Determinant, divided by the determinant) *)
+Theorem C20_det_mul_invertible : forall (F : Type) (K : fops F), flaws K ->
+  forall n (A B : @matrix F), wf_matrix n n A -> wf_matrix n n B -> 0 < n ->
+  try_inv K A <> None -> ldet K n (mmul K A B) = fmul K (ldet K n A) (ldet K n B).
+Proof. exact @ldet_mul_invertible. Qed.
+Print Assumptions C20_det_mul_invertible.
+
+Theorem C20_cramer_rule : forall (F : Type) (K : fops F), flaws K ->
+  forall n (V : @matrix F) ys, wf_matrix n n V -> 0 < n -> length ys = n ->
+  determinant K V <> f0 K ->
+  exists P, sequence_opt (map (fun c => match set_column c ys V with
+                                        | None => None
+                                        | Some Vc => Some (fdiv K (determinant K Vc) (determinant K V))
+                                        end) (seq 0 n)) = Some P /\
+            length P = n /\ mvec K V P = ys.
+Proof. exact @cramer_rule. Qed.
+Print Assumptions C20_cramer_rule.
+
 (* Birkhoff: the generalised Vandermonde matrix built by birkhoff.BuildVandermondeMatrix is the
    matrix of the derivative constraints: a coefficient vector solves V·P = ys iff P^(j_i)(x_i) = y_i
-   for every node (coded Derivative iterated j_i times, coded Eval), for all node sets and orders.
-
-   birkhoff_interp (full statement, NOT proved): birkhoff_interpolate K fkey xs js ys = Ok P ->
-     forall i < length xs, peval K (pderiv_iter K (N.to_nat (nth i js 0)) P) (nth i xs 0) = nth i ys 0,
-   and Err ErrSingular is returned only when the Birkhoff matrix is singular (the latter half is
-   C20_det_zero_iff_singular applied to the model's determinant test).  The code computes P by
-   Cramer's rule (SetColumn + Determinant, minors in the exponent); what is missing is that the
-   elimination-coded [determinant] is the Leibniz determinant (det_value), hence Cramer's rule.
-   The proved part below reduces the statement to the linear system; the correspondence check
-   evaluates the constraints on every polynomial the implementation returns. *)
-Theorem C20_birkhoff_interp_partial : forall (F : Type) (K : fops F), flaws K ->
+   for every node (coded Derivative iterated j_i times, coded Eval), for all node sets and orders *)
+Theorem C20_birkhoff_system_iff_constraints : forall (F : Type) (K : fops F), flaws K ->
   forall xs js ys P, length xs = length js -> length ys = length xs ->
   (mvec K (build_birkhoff K xs js (length P)) P = ys <->
    forall i, i < length xs ->
      peval K (pderiv_iter K (N.to_nat (nth i js 0%N)) P) (nth i xs (f0 K)) = nth i ys (f0 K)).
 Proof. exact @birkhoff_system_iff_constraints. Qed.
-Print Assumptions C20_birkhoff_interp_partial.
+Print Assumptions C20_birkhoff_system_iff_constraints.
+
+(* birkhoff_interp: whenever birkhoff.Interpolate returns a polynomial P, every input constraint
+   P^(j)(x) = y holds (any node order, any derivative-order pattern; [fkey] is the sort key) *)
+Theorem C20_birkhoff_interp : forall (F : Type) (K : fops F), flaws K ->
+  forall (fkey : F -> Z) xs js ys P,
+  birkhoff_interpolate K fkey xs js ys = Ok P ->
+  length P = length xs /\
+  forall x j y, In (x, j, y) (combine (combine xs js) ys) ->
+    peval K (pderiv_iter K (N.to_nat j) P) x = y.
+Proof. exact @birkhoff_interp. Qed.
+Print Assumptions C20_birkhoff_interp.
+
+(* ... and an error (beyond the length / empty refusals) is returned exactly when the Birkhoff
+   matrix of the sorted nodes is singular (determinant zero <-> no inverse: C20_det_zero_iff_singular) *)
+Theorem C20_birkhoff_total : forall (F : Type) (K : fops F), flaws K ->
+  forall (fkey : F -> Z) xs js ys, xs <> [] -> length xs = length js -> length xs = length ys ->
+  let nodes := sort_nodes fkey (combine (combine xs js) ys) in
+  let V := build_birkhoff K (map (fun n : F * N * F => fst (fst n)) nodes)
+                            (map (fun n : F * N * F => snd (fst n)) nodes) (length xs) in
+  (determinant K V = f0 K -> birkhoff_interpolate K fkey xs js ys = Err ErrSingular) /\
+  (determinant K V <> f0 K -> exists P, birkhoff_interpolate K fkey xs js ys = Ok P).
+Proof. exact @birkhoff_total. Qed.
+Print Assumptions C20_birkhoff_total.
+
+(* cofactor expansion along an arbitrary column, as InterpolateInExponent computes its numerators
+   (Minor + Determinant with the sign (−1)^{r+c}) *)
+Theorem C20_cofactor_column : forall (F : Type) (K : fops F), flaws K ->
+  forall n c (V Vc : @matrix F) ys, wf_matrix n n V -> 1 < n -> c < n -> length ys = n ->
+  set_column c ys V = Some Vc ->
+  determinant K Vc =
+  bsum K n (fun r => fmul K (nth r ys (f0 K))
+                       match minor r c V with
+                       | Some m => if Nat.even (r + c) then determinant K m else fopp K (determinant K m)
+                       | None => f0 K
+                       end).
+Proof. exact @cofactor_column. Qed.
+Print Assumptions C20_cofactor_column.
+
+(* birkhoff_interp_in_exponent: interpolating group elements y_i·g equals lifting the scalar
+   interpolation, for all inputs, error classes included; with a single node the code refuses
+   (Minor of a 1x1 matrix is undefined) although the scalar variant answers *)
+Theorem C20_birkhoff_interp_in_exponent : forall (F : Type) (K : fops F), flaws K ->
+  forall (G : Type) (Mo : mops G F), mlaws K Mo ->
+  forall (fkey : F -> Z) xs js ys g,
+  birkhoff_interpolate_in_exponent K Mo fkey xs js (map (fun y => gsmul Mo g y) ys) =
+  match birkhoff_interpolate K fkey xs js ys with
+  | Ok P => if Nat.eqb (length xs) 1 then Err ErrDim else Ok (map (fun c => gsmul Mo g c) P)
+  | Err e => Err e
+  end.
+Proof. exact @birkhoff_interp_in_exponent. Qed.
+Print Assumptions C20_birkhoff_interp_in_exponent.
 
 (* ---- non-vacuity: the hypotheses are met by concrete non-trivial instances ------------------------- *)
 
